@@ -131,7 +131,12 @@ func layoutOf(t types.Type) *layoutT {
 	u := underlying(t)
 	switch u := u.(type) {
 	case *types.Basic:
-		l.leaves = []Leaf{{Path: "", Sort: basicSort(u), Arr: "E|" + shortType(u), Off: 0, Typ: t}}
+		// byte and rune are aliases of uint8 and int32: one memory family per kind, whatever the spelling
+		canon := types.Type(u)
+		if int(u.Kind()) < len(types.Typ) && types.Typ[u.Kind()] != nil {
+			canon = types.Typ[u.Kind()]
+		}
+		l.leaves = []Leaf{{Path: "", Sort: basicSort(u), Arr: "E|" + shortType(canon), Off: 0, Typ: t}}
 		l.cells = 1
 	case *types.Pointer, *types.Map, *types.Chan, *types.Signature:
 		l.leaves = []Leaf{{Path: "", Sort: "Int", Arr: "E|" + shortType(refClass(u)), Off: 0, Typ: t}}
